@@ -39,6 +39,10 @@ StoryN(x, v) == Nd("story", x, None,
 StoryNT(x) == Nd("story", x, None,
                  << Leaf("storyID", x, "="), Leaf("storySlug", None, "x:slug." \o x \o "-nt"),
                     ItemN("I1", x, "-nt"), ParaN(x, 1) >>)
+(* a bare story: storyID and one item only - no slug, no timing           *)
+StoryBare(x, v) == Nd("story", x, None, << Leaf("storyID", x, "="), ItemN("I1", x, v) >>)
+(* a story element that carries attributes of its own                     *)
+StoryAttr(x) == [StoryN(x, "") EXCEPT !.tok = "a:" \o x]
 (* a story whose storyID tag is blank                                      *)
 StoryBlank == Nd("story", None, None,
                  StoryHdr(None, "") \o << ItemN("I1", "SB", ""), ParaN("SB", 1) >>)
@@ -62,11 +66,13 @@ Trailing == Leaf("mosExternalMetadata", "sch.ro", "x:trailing")
 (* layouts: "plain" | "between" | "trailing" | "both" (where metadata sits) *)
 (*          "nt1" / "nt2": the first / second story has no timing metadata  *)
 (*          "blank": the last story's storyID is blank                      *)
+(*          "attr": every <story> element carries attributes                *)
 RECURSIVE StoryRun(_, _, _)
 StoryRun(i, n, lay) ==
   IF i > n THEN <<>>
   ELSE << IF (lay = "nt1" /\ i = 1) \/ (lay = "nt2" /\ i = 2) THEN StoryNT(SId(i))
           ELSE IF lay = "blank" /\ i = n THEN StoryBlank
+          ELSE IF lay = "attr" THEN StoryAttr(SId(i))
           ELSE StoryN(SId(i), "") >>
        \o (IF lay \in {"between", "both"} /\ i = 1 THEN <<Between>> ELSE <<>>)
        \o StoryRun(i+1, n, lay)
@@ -122,6 +128,9 @@ RealIds(K) == IdSet(K, "story") \ {None}
 CarriedStories(K) ==
   { FreshStories(K, k) : k \in 1..MaxCarried }
   \cup { <<StoryNT(FreshFrom(FreshPoolS, IdSet(K, "story"))[1])>> }                  \* a story without timing
+  \cup { FreshStories(K, 1) \o <<StoryBare(x, "'")>> : x \in RealIds(K) }             \* a slug-less duplicate, 2nd
+  \cup { <<StoryN(FreshFrom(FreshPoolS, IdSet(K, "story"))[1], ""),                   \* the same new id twice
+           StoryBare(FreshFrom(FreshPoolS, IdSet(K, "story"))[1], "'")>> }
   \cup (IF MaxCarried >= 3                                                          \* two duplicates in one message
         THEN { <<StoryN(x, "'"), StoryN(y, "'")>> \o FreshStories(K, 1) : x, y \in RealIds(K) }
              \cup { <<StoryN(x, "'")>> \o FreshStories(K, 1) \o <<StoryN(y, "'")>> : x, y \in RealIds(K) }
@@ -135,13 +144,13 @@ CarriedItems(S) == { FreshItems(S, k) : k \in 1..MaxCarried }
 
 SendMsgs(K) ==
   { [cls |-> "StorySend", story |-> s, item |-> RefAbsent, ids |-> <<>>, carried |-> <<>>,
-     stok |-> None,
+     stok |-> st,
      hdr |-> << Leaf("roID", RoIdC, "="),
                 Leaf("storyID", s.id, "="),
                 Leaf("storySlug", None, "x:sendslug"),
                 Leaf("mosExternalMetadata", "sch.time", "tm:send") >>,
      bodyPos |-> bp, body |-> b]
-    : s \in SRefs(K), bp \in {1, 4, 5},
+    : s \in SRefs(K), bp \in {1, 4, 5}, st \in {None, "a:send"},
       b \in { <<>>,
               << Leaf("storyItem", "I9", "x:senditem") >>,
               << Leaf("p", None, "x:sendp1"), Leaf("storyItem", "I9", "x:senditem"),
@@ -205,10 +214,11 @@ OtherMsgs(cls, K) ==
          { Msg(cls, RefAbsent, RefAbsent, <<>>, c) : c \in MetaCarried }
     [] cls = "ReadyToAir" -> { Msg(cls, RefAbsent, RefAbsent, <<>>, <<>>) }
     [] cls = "RunningOrderEnd" ->
-         { Msg(cls, RefAbsent, RefAbsent, <<>>, <<Leaf("roDelete", None, "x:roDelete")>>) }
+         { Msg(cls, RefAbsent, RefAbsent, <<>>, <<Leaf("roDelete", None, t)>>)
+             : t \in {"x:roDelete", "x:roDelete.foreign"} }     \* the second one carries another roID
     [] cls = "RunningOrderReplace" ->
          { Msg(cls, RefAbsent, RefAbsent, <<>>,
-               << Leaf("roID", RoIdC, "="), Leaf("roSlug", None, "x:replSlug") >> \o c)
-             : c \in { <<>>, FreshStories(K, 1), <<StoryN("S1", "'")>> \o FreshStories(K, 2) } }
+               << Leaf("roID", RoIdC, "="), Leaf("roSlug", None, "x:replSlug") >> \o e \o c)
+             : e \in { <<>>, <<Leaf("roEdStart", None, "e:empty")>> }, c \in { <<>>, FreshStories(K, 1), <<StoryN("S1", "'")>> \o FreshStories(K, 2) } }
 
 =============================================================================
